@@ -141,10 +141,11 @@ type ReaderSpec struct {
 
 // GridSpec restricts the C12 enumeration (nil slices = enumerate per tier).
 type GridSpec struct {
-	Offsets []int `json:"offsets,omitempty"`
-	Forms   []int `json:"forms,omitempty"`
-	Polls   []int `json:"polls,omitempty"`
-	All     bool  `json:"all,omitempty"` // every byte offset
+	Offsets  []int `json:"offsets,omitempty"`
+	Forms    []int `json:"forms,omitempty"`
+	Polls    []int `json:"polls,omitempty"`
+	ReaderAt []int `json:"reader_at,omitempty"` // source-reader fault positions (replay of a reader-fault violation)
+	All      bool  `json:"all,omitempty"`       // every byte offset
 }
 
 // StackSpec is a C17 operation history.
